@@ -39,6 +39,7 @@ class Config:
         self.typed = True             # registers have types in the mapfile
         self.n_int_scratch = 4
         self.n_float_scratch = 4
+        self.pad_seed = 0             # != 0: dword padding is inserted into the signatures of the intrinsics (position derived from the seed)
         for k, v in kw.items(): setattr(self, k, v)
         if rng is not None:
             self.native_neg = rng.chance(0.6)
@@ -51,12 +52,13 @@ class Config:
             self.bitwise = rng.chance(0.8)
             self.logic = rng.chance(0.7)
             self.aliases = rng.chance(0.7)
+            self.pad_seed = rng.randint(1, 1 << 30) if rng.chance(0.25) else 0
             sizes = [0, 1, 2, 3, 4, 4, 4] if pools == 'any' else [2, 3, 4, 4, 4, 4]
             self.n_int_scratch = rng.pick(sizes)
             self.n_float_scratch = rng.pick(sizes)
 
     def tag(self):
-        return 'neg%d not%d aop%d 2cmp%d cgt%d tl%d cmpv%d bit%d log%d al%d si%d sf%d' % (
+        return ('pad ' if self.pad_seed else '') + 'neg%d not%d aop%d 2cmp%d cgt%d tl%d cmpv%d bit%d log%d al%d si%d sf%d' % (
             self.native_neg, self.native_not, self.assign_ops_native, self.two_part_cmp, self.count_gt, self.time_loc,
             self.cmp_values, self.bitwise, self.logic, self.aliases, self.n_int_scratch, self.n_float_scratch)
 
@@ -90,6 +92,11 @@ class Config:
         sigs.append('4 ot'); names.append('4 labelref')
         op = [200]
         def add(sig, text):
+            if self.pad_seed and 'Cmp' not in text and 'CondJmp' not in text:
+                # interior / leading / trailing padding (jump intrinsics keep `o` and `t` adjacent, which the ABI requires)
+                h = (self.pad_seed * 2654435761 + op[0] * 40503) & 0xffffffff
+                pos = h % (len(sig) + 1)
+                if (h >> 8) % 3: sig = sig[:pos] + '_' + sig[pos:]
             sigs.append('%d %s' % (op[0], sig)); intr.append('%d %s' % (op[0], text)); op[0] += 1
         aops = ASSIGN_OPS if self.assign_ops_native else ['=']
         for a in aops:
